@@ -71,5 +71,8 @@ def run(ctx: Ctx):
         from checks import c04_threads
     except ImportError:
         c04_threads = None
+    # the TIME_CHANGED stream stays non-decreasing and equal to the time of the event about to run when LISTENERS schedule events too
+    from checks import c02 as _c02
+    _c02.listener_scheduling(ctx, scale=0.4)
     if c04_threads:
         c04_threads.overlap_layer(ctx)
